@@ -1,0 +1,121 @@
+//go:build verif
+
+// Contracts for package parser, read by the verification-condition generator in /verif/govc.
+// This file contains comments only; it is compiled only with -tags verif and adds no code.
+
+package parser
+
+/*@
+// ---------------------------------------------------------------------------------------------
+// Ghost trace of the events delivered to a parse callback (one entry per call of the callback)
+// ---------------------------------------------------------------------------------------------
+ghost cbLen    int
+ghost cbErr    seq[error]    // the err argument (nil for a record event)
+ghost cbNode   seq[int]      // the record argument (0 for an error event)
+ghost cbStop   seq[bool]     // what the callback answered
+ghost cbRet    seq[error]
+ghost cbLineNo seq[int]      // for error events: LineNumber / Line stored in the error at the time of the call
+ghost cbLine   seq[string]
+ghost cbHeader seq[string]   // for record events: snapshot of the record at the time of the call
+ghost cbElems  seq[seq[Element]]
+ghost cbNElems seq[int]
+ghost privLo   int           // references >= privLo were allocated by the running parser call
+ghost evOf     seq[int]      // line index -> index of the error event raised for it
+
+// ---------------------------------------------------------------------------------------------
+// Classification of a physical line, as the property statements define it:
+//   blank (only layout bytes), comment (first byte is the comment character), heading (starts in column 0),
+//   otherwise an indented line: a note (first significant byte is the comment character) or an entry.
+//   An entry is malformed if its significant text contains no blank before the value (BadSyntax)
+//   or if the value token is not a number (BadNumber).
+// ---------------------------------------------------------------------------------------------
+fun Trimmed(l string) string := l[TrimLo(l, "\t \n:\"-"):TrimHi(l, "\t \n:\"-")]
+fun QtyTok(l string) string := let t := Trimmed(l) in let q := t[LastSep(t):len(t)] in q[TrimLo(q, "\t \n:\""):TrimHi(q, "\t \n:\"")]
+
+pred BlankOrComment(l string, cc int) := Trimmed(l) == "" || l[0] == cc
+pred IsEntryPos(l string, cc int) := !BlankOrComment(l, cc) && !IsHeadingLine(l, cc) && Trimmed(l)[0] != cc
+pred BadSyntaxLine(l string, cc int) := IsEntryPos(l, cc) && LastSep(Trimmed(l)) == -1
+pred BadNumberLine(l string, cc int) := IsEntryPos(l, cc) && LastSep(Trimmed(l)) != -1 && !PfOk(QtyTok(l))
+
+// The three predicates the invariants talk about are opaque: their definitions are unfolded once per line
+// (ghost block after the call of Scanner.Text), never inside quantifiers.
+fun IsHeadingLine(l string, cc int) bool opaque := !BlankOrComment(l, cc) && l[0] != ' ' && l[0] != '\t' && l[0] != '-'
+fun MalformedLine(l string, cc int) bool opaque := BadSyntaxLine(l, cc) || BadNumberLine(l, cc)
+// HasNode(rd,k,cc): some line before k is a heading (a record is open when line k is read)
+fun HasNode(rd int, k int, cc int) bool := k > 0 && (HasNode(rd, k-1, cc) || IsHeadingLine(RdLine(rd, k-1), cc))
+pred Malformed(rd int, i int, cc int) := HasNode(rd, i, cc) && MalformedLine(RdLine(rd, i), cc)
+
+// ---------------------------------------------------------------------------------------------
+// What any parse callback does to the trace. "modifies *": a callback may change anything it can reach.
+// The two free clauses state what it cannot reach (A-PRIV, a consequence of memory safety): objects
+// allocated by the running parser call that were not passed to it, and the parser's private scanner.
+// ---------------------------------------------------------------------------------------------
+pred CbEvent(n *shared.ParserNode, err error, stop bool, cbError error) :=
+     cbLen == old(cbLen) + 1
+  && cbErr == store(old(cbErr), old(cbLen), err) && cbNode == store(old(cbNode), old(cbLen), ref(n))
+  && cbStop == store(old(cbStop), old(cbLen), stop) && cbRet == store(old(cbRet), old(cbLen), cbError)
+  && (typeis(err, "*parser.ErrorBadSyntax") ==> cbLineNo == store(old(cbLineNo), old(cbLen), old(cellat(parser.ErrorBadSyntax, payload(err)).LineNumber)) && cbLine == store(old(cbLine), old(cbLen), old(cellat(parser.ErrorBadSyntax, payload(err)).Line)))
+  && (typeis(err, "*parser.ErrorConversion") ==> cbLineNo == store(old(cbLineNo), old(cbLen), old(cellat(parser.ErrorConversion, payload(err)).LineNumber)) && cbLine == store(old(cbLine), old(cbLen), old(cellat(parser.ErrorConversion, payload(err)).Line)))
+  && (err == nil ==> cbLineNo == old(cbLineNo) && cbLine == old(cbLine))
+
+// what a callback cannot reach (A-PRIV, a consequence of memory safety): objects allocated by the running
+// parser call that were not passed to it
+pred CbPrivate(n *shared.ParserNode) :=
+  (forall r int :: {cellat(shared.ParserNode, r)} privLo <= r && r < old(alloc()) && r != ref(n) ==> cellat(shared.ParserNode, r) == old(cellat(shared.ParserNode, r)))
+
+type parser.ParseCallback(n, err) returns (stop, cbError)
+  requires @one-of (n != nil) == (err == nil)
+  modifies *
+  modifies ghost(cbLen, cbErr, cbNode, cbStop, cbRet, cbLineNo, cbLine, cbHeader, cbElems, cbNElems)
+  ensures CbEvent(n, err, stop, cbError)
+  free ensures CbPrivate(n)
+
+// A callback that stops exactly when it is handed an error, and hands that error back (all commands but lint).
+type parser.StopOnErr(n, err) returns (stop, cbError)
+  requires @one-of (n != nil) == (err == nil)
+  modifies *
+  modifies ghost(cbLen, cbErr, cbNode, cbStop, cbRet, cbLineNo, cbLine, cbHeader, cbElems, cbNElems)
+  ensures CbEvent(n, err, stop, cbError)
+  ensures @stop-on-error err != nil ==> stop && cbError == err
+  ensures @stop-means-error stop ==> cbError != nil
+  free ensures CbPrivate(n)
+
+// getMetadataPair builds a fresh pair from the text of a note line; it reads nothing but its argument
+func getMetadataPair returns (mp, err)
+  props C08 C04
+  ensures @fresh mp != nil && fresh(mp) && err == nil
+
+// ---------------------------------------------------------------------------------------------
+// ParseStreamCallback, generic contract (any callback)
+// ---------------------------------------------------------------------------------------------
+func ParseStreamCallback
+  props C08 C09 C10
+  requires callback != nil
+  modifies *
+  let rd := payload(reader)
+  let cc := c.CommentChar
+  // the parse ends with the answer of the callback that stopped it, or of the last record
+  ensures @stopped-result [C09] cbLen > old(cbLen) && cbStop[cbLen - 1] ==> result == cbRet[cbLen - 1]
+  // C10: success without an early stop means the input was read to its end
+  ensures @scanner-err [C10] result == nil && !(cbLen > old(cbLen) && cbStop[cbLen - 1]) ==> !RdFailed(rd)
+  // C09 soundness: every error event names a malformed line, with its 1-based number and its text
+  ensures @events-sound [C09] forall j int :: {cbErr[j]} old(cbLen) <= j && j < cbLen && cbErr[j] != nil ==> 1 <= cbLineNo[j] && cbLineNo[j] <= RdN(rd) && cbLine[j] == RdLine(rd, cbLineNo[j] - 1) && Malformed(rd, cbLineNo[j] - 1, cc)
+  // C09 completeness: unless a callback stopped the parse, every malformed line has its event
+  ensures @events-complete [C09] !(cbLen > old(cbLen) && cbStop[cbLen - 1]) ==> forall i int :: {evOf[i]} 0 <= i && i < RdN(rd) && Malformed(rd, i, cc) ==> old(cbLen) <= evOf[i] && evOf[i] < cbLen && cbErr[evOf[i]] != nil && cbLineNo[evOf[i]] == i + 1
+  ensures @events-ordered [C09] forall j1, j2 int :: {cbErr[j1], cbErr[j2]} old(cbLen) <= j1 && j1 < j2 && j2 < cbLen && cbErr[j1] != nil && cbErr[j2] != nil ==> cbLineNo[j1] < cbLineNo[j2]
+  ghost at entry { set privLo := alloc() }
+  loop 1 {
+    invariant @scanner lineScanner != nil && lineScanner >= privLo && scRd[lineScanner] == rd && scPos[lineScanner] == lineNumber && 0 <= lineNumber && lineNumber <= RdN(rd)
+    invariant @priv privLo == old(alloc()) && callback == old(callback) && c == old(c)
+    invariant @node (node != nil) == HasNode(rd, lineNumber, cc)
+    invariant @node-priv node != nil ==> node >= privLo && allocated(node)
+    invariant @nostop cbLen >= old(cbLen) && (forall j int :: {cbStop[j]} old(cbLen) <= j && j < cbLen ==> !cbStop[j])
+    invariant @sound forall j int :: {cbErr[j]} old(cbLen) <= j && j < cbLen && cbErr[j] != nil ==> 1 <= cbLineNo[j] && cbLineNo[j] <= lineNumber && cbLine[j] == RdLine(rd, cbLineNo[j] - 1) && Malformed(rd, cbLineNo[j] - 1, cc)
+    invariant @complete forall i int :: {evOf[i]} 0 <= i && i < lineNumber && Malformed(rd, i, cc) ==> old(cbLen) <= evOf[i] && evOf[i] < cbLen && cbErr[evOf[i]] != nil && cbLineNo[evOf[i]] == i + 1
+    invariant @ordered forall j1, j2 int :: {cbErr[j1], cbErr[j2]} old(cbLen) <= j1 && j1 < j2 && j2 < cbLen && cbErr[j1] != nil && cbErr[j2] != nil ==> cbLineNo[j1] < cbLineNo[j2]
+  }
+  ghost after call 1 NewScanner { unfold HasNode(rd, 0, cc) }
+  ghost before call 1 Trim { assert @line line == RdLine(rd, lineNumber - 1); unfold HasNode(rd, lineNumber, cc); unfold IsHeadingLine(line, cc); unfold MalformedLine(line, cc) }
+  ghost before dyncall 2 { set evOf := store(evOf, lineNumber - 1, cbLen) }
+  ghost before dyncall 3 { set evOf := store(evOf, lineNumber - 1, cbLen) }
+@*/
